@@ -852,10 +852,10 @@ impl<'s> M<'s> {
                 value_only!();
                 kv(RVal::Null)
             }
-            ("tick", [T::Num(n)]) => {
-                self.st.log(Ev::Tick(n.parse().unwrap_or(-999)));
+            ("tick", [f]) => self.vals(f, env, v, &|n| {
+                self.st.log(Ev::Tick(tick_id(&n)));
                 k(pv.clone())
-            }
+            }),
             ("bomb", []) => {
                 self.st.log(Ev::Bomb);
                 Ctl::Err(ErrV::User(rv::s(crate::jq::BOMB_MSG)))
@@ -1050,10 +1050,10 @@ impl<'s> M<'s> {
                         go!(self.vals(f, env, v, &|y| Ctl::Err(ErrV::User(y))));
                         k(v.clone())
                     }
-                    ("tick", [T::Num(n)]) => {
-                        self.st.log(Ev::Tick(n.parse().unwrap_or(-999)));
+                    ("tick", [f]) => self.vals(f, env, v, &|n| {
+                        self.st.log(Ev::Tick(tick_id(&n)));
                         u(v, k)
-                    }
+                    }),
                     ("first" | "last" | "limit" | "skip" | "path" | "path_value" | "true" | "false" | "null" | "length" | "keys_unsorted" | "type" | "tojson" | "sort" | "has" | "input" | "inputs" | "bomb", _) => builtin(),
                     _ => Ctl::Err(ErrV::Unsupported(format!("update of {name}/{}", args.len()))),
                 },
@@ -1379,6 +1379,13 @@ fn pat_simple(p: &Pat) -> bool {
         Pat::Var(_) => true,
         Pat::Arr(ps) => ps.iter().all(pat_simple),
         Pat::Obj(es) => es.iter().all(|(k, p)| is_simple(k) && pat_simple(p)),
+    }
+}
+
+fn tick_id(n: &RVal) -> i64 {
+    match n {
+        RVal::Int(i) => num_traits::ToPrimitive::to_i64(i).unwrap_or(-999),
+        _ => -999,
     }
 }
 
